@@ -8,6 +8,7 @@ import (
 	"fmt"
 	"go/constant"
 	"go/token"
+	"go/types"
 	"sort"
 	"strings"
 
@@ -232,7 +233,9 @@ func (m *Model) RunTokPos(s *Sink, rule string) {
 		s.OK(rule, "lexer|tokens are built only by newToken", m.Pos(newTok.Pos()), "no other lexer function stores into a token.Token")
 	}
 	// (c) newToken: start from startCol/startLine; end from prevCol/prevLine unless EOF
-	m.checkNewToken(s, rule, newTok)
+	if !m.newTokenCases(s, rule, newTok) {
+		m.checkNewToken(s, rule, newTok)
+	}
 	// (d) start is taken before consuming: in every function that calls newToken, every path from entry to
 	// that call passes a beginner (tokenBegins or a callee that begins first), and no input is consumed before it
 	beginner := map[*ssa.Function]bool{tokBegins: true}
@@ -533,4 +536,147 @@ func (m *Model) checkNewToken(s *Sink, rule string, fn *ssa.Function) {
 			s.Violation(rule, key, m.Pos(fn.Pos()), "Position.%s is not taken from l%s for ordinary tokens and l%s for EOF: the token's end is not the position of its last byte", f, w[0], w[1])
 		}
 	}
+}
+
+// newTokenCases decides clause (c) by evaluating newToken on abstract lexers whose six position counters hold six
+// different numbers: the Position it returns tells which counter each field is taken from. Cases: every token type
+// with something read; nothing read since the token began (col/line still equal the recorded start); only the column
+// or only the line equal to the start. Returns false when newToken cannot be evaluated (the structural reading decides).
+func (m *Model) newTokenCases(s *Sink, rule string, fn *ssa.Function) bool {
+	lexT, tokT, posT := m.namedType("lexer", "Lexer"), m.namedType("token", "Token"), m.namedType("token", "Position")
+	if lexT == nil || tokT == nil || posT == nil || len(fn.Params) != 3 {
+		return false
+	}
+	fieldIdx := func(t *types.Named, name string) int {
+		st := t.Underlying().(*types.Struct)
+		for i := 0; i < st.NumFields(); i++ {
+			if canonFieldName(t, i, st.Field(i).Name()) == name {
+				return i
+			}
+		}
+		return -1
+	}
+	ctr := map[string]int{}
+	for _, n := range []string{"col", "line", "prevCol", "prevLine", "startCol", "startLine"} {
+		ctr[n] = fieldIdx(lexT, n)
+		if ctr[n] < 0 {
+			return false
+		}
+	}
+	fPos := fieldIdx(tokT, "Pos")
+	pf := map[string]int{}
+	for _, n := range []string{"StartCol", "StartLine", "EndCol", "EndLine"} {
+		pf[n] = fieldIdx(posT, n)
+		if pf[n] < 0 || fPos < 0 {
+			return false
+		}
+	}
+	eofVal := int64(-1)
+	var tokVals []int64
+	for v, n := range tokenConstNames {
+		if n == "EOF" {
+			eofVal = v
+		}
+		tokVals = append(tokVals, v)
+	}
+	sort.Slice(tokVals, func(i, j int) bool { return tokVals[i] < tokVals[j] })
+	if eofVal < 0 {
+		return false
+	}
+	run := func(tok int64, vals map[string]int64) (map[string]int64, bool) {
+		lx := &iStruct{typ: lexT, fields: map[int]any{}}
+		for n, v := range vals {
+			lx.fields[ctr[n]] = constant.MakeInt64(v)
+		}
+		ip := &Interp{m: m, useGlobals: true}
+		res, ok := ip.Run(fn, []any{lx, constant.MakeInt64(tok), constant.MakeString("x")})
+		t, isT := res.(*iStruct)
+		if !ok || !isT || ip.stuck != "" {
+			return nil, false
+		}
+		pv, isP := t.fields[fPos].(*iStruct)
+		if !isP {
+			return nil, false
+		}
+		out := map[string]int64{}
+		for n, i := range pf {
+			c, isC := pv.fields[i].(constant.Value)
+			if !isC {
+				return nil, false
+			}
+			out[n], _ = constant.Int64Val(c)
+		}
+		return out, true
+	}
+	read := map[string]int64{"startCol": 11, "startLine": 12, "col": 13, "line": 14, "prevCol": 15, "prevLine": 16}
+	nameOf := func(vals map[string]int64, v int64) string {
+		var ns []string
+		for n, x := range vals {
+			if x == v {
+				ns = append(ns, "l."+n)
+			}
+		}
+		sort.Strings(ns)
+		if len(ns) == 0 {
+			return fmt.Sprint(v)
+		}
+		return strings.Join(ns, " = ")
+	}
+	bad := map[string]string{}
+	check := func(what string, tok int64, vals map[string]int64, want map[string]string) bool {
+		got, ok := run(tok, vals)
+		if !ok {
+			return false
+		}
+		for f, src := range want {
+			if got[f] != vals[src] && bad[f] == "" {
+				bad[f] = fmt.Sprintf("for %s Position.%s is %s, expected l.%s", what, f, nameOf(vals, got[f]), src)
+			}
+		}
+		return true
+	}
+	for _, tv := range tokVals {
+		want := map[string]string{"StartCol": "startCol", "StartLine": "startLine", "EndCol": "prevCol", "EndLine": "prevLine"}
+		what := "a token that has read its characters"
+		if tv == eofVal {
+			want["EndCol"], want["EndLine"] = "col", "line"
+			what = "EOF"
+		}
+		if !check(what+" ("+tokenConstNames[tv]+")", tv, read, want) {
+			return false
+		}
+	}
+	other := tokVals[0]
+	if other == eofVal {
+		other = tokVals[1]
+	}
+	prevWant := map[string]string{"StartCol": "startCol", "StartLine": "startLine", "EndCol": "prevCol", "EndLine": "prevLine"}
+	sameCol := map[string]int64{"startCol": 11, "startLine": 12, "col": 11, "line": 14, "prevCol": 15, "prevLine": 16}
+	sameLine := map[string]int64{"startCol": 11, "startLine": 12, "col": 13, "line": 12, "prevCol": 15, "prevLine": 16}
+	if !check("a token that ends in the column it started in, lines later", other, sameCol, prevWant) || !check("a token on one line", other, sameLine, prevWant) {
+		return false
+	}
+	// nothing read: either the token ends where it starts (then unread tokens like the illegal character are fine),
+	// or newToken assumes something was read (then clause (e) demands it of every caller)
+	unread := map[string]int64{"startCol": 11, "startLine": 12, "col": 11, "line": 12, "prevCol": 15, "prevLine": 16}
+	got, ok := run(other, unread)
+	if !ok {
+		return false
+	}
+	switch {
+	case got["EndCol"] == 11 && got["EndLine"] == 12:
+		m.newTokenUnread = true
+	case got["EndCol"] == 15 && got["EndLine"] == 16:
+	default:
+		bad["EndCol"] = fmt.Sprintf("for a token that has read nothing the end is (%s, %s): neither the current nor the previous character", nameOf(unread, got["EndLine"]), nameOf(unread, got["EndCol"]))
+	}
+	for _, f := range []string{"EndCol", "EndLine", "StartCol", "StartLine"} {
+		key := fnKey(fn) + "|Position." + f
+		if bad[f] != "" {
+			s.Violation(rule, key, m.Pos(fn.Pos()), "%s: the token's range is not that of its text, so errors about it name a wrong line and a cursor on it is not found", bad[f])
+		} else {
+			s.OK(rule, key, m.Pos(fn.Pos()), "case evaluation of newToken with six distinct counters, for all %d token types: start from tokenBegins' record, end on the previous character (the current one for EOF%s)", len(tokVals), map[bool]string{true: " and for a token that has read nothing", false: ""}[m.newTokenUnread])
+		}
+	}
+	return true
 }
